@@ -413,6 +413,23 @@ func faults() []fault {
 			res, err := ep.pa.Big(70000)
 			return expectError("a call with a 70000-byte result over udp", err, len(res))
 		}},
+		fault{name: "responses of every size around the datagram limit", level: "conn", kinds: []string{"udp"}, run: func(ep *endpoint, id int64) string {
+			// a string result of n bytes makes a response body of n+10 bytes: 65480..65510 covers the limit 65499 and
+			// the buffer size 65507
+			for n := 65470; n <= 65500; n++ {
+				res, err := ep.pa.Big(n)
+				if err == nil && len(res) != n {
+					return fmt.Sprintf("a call with a %d-byte result returned %d bytes without an error", n, len(res))
+				}
+				if err != nil {
+					// refused or lost: the next small call must go through
+					if s, qerr := ep.pb.Quick("lim"); qerr != nil || s != "q:lim" {
+						return fmt.Sprintf("after a call with a %d-byte result failed (%v) another client's call returned %q, %v", n, err, s, qerr)
+					}
+				}
+			}
+			return ""
+		}},
 		fault{name: "response of 4 MiB", level: "call", kinds: []string{"tcp", "unix", "ws", "wsfast", "http", "fasthttp", "mock"}, run: func(ep *endpoint, id int64) string {
 			res, err := ep.pa.Big(4 << 20)
 			if err != nil || len(res) != 4<<20 {
